@@ -26,7 +26,7 @@ from typing import Callable, Iterable
 
 from . import norm
 from .errors import AnalysisError
-from .model import Func, Repo
+from .model import Cls, Func, Repo
 
 MAX_ALTS = 24
 MAX_EXPR_NODES = 600
@@ -320,11 +320,34 @@ class Outcome:
     continues: list[State] = field(default_factory=list)
 
 
+def is_not_const_truthy(atom: ast.expr) -> bool:
+    """`not <constant>` / `<constant>` whose truth value is known to be False"""
+    if isinstance(atom, ast.UnaryOp) and isinstance(atom.op, ast.Not) and isinstance(atom.operand, ast.Constant):
+        return bool(atom.operand.value)
+    if isinstance(atom, ast.Constant) and not isinstance(atom.value, str):
+        return not bool(atom.value) and atom.value is not None and False
+    return False
+
+
+def _load_known() -> frozenset[str]:
+    import json
+    from pathlib import Path
+
+    f = Path(__file__).with_name("known_funcs.json")
+    try:
+        return frozenset(json.loads(f.read_text()))
+    except Exception:  # noqa: BLE001
+        return frozenset()
+
+
+_KNOWN_FUNCS = _load_known()
+
+
 class Flow:
     """Analyse one function.  `sites` lists a Site per statement and per call expression."""
 
     def __init__(self, func: Func, repo: Repo | None = None, inline_depth: int = 1, closure_env: dict | None = None,
-                 events: dict[str, Callable[[ast.stmt], bool]] | None = None):
+                 events: dict[str, Callable[[ast.stmt], bool]] | None = None, inline_calls: int = 2):
         """`events`: label -> predicate on simple statements; once a matching statement has executed on
         every path to a site, the site carries the must-fact `__event__('label')` (must-pass-through)."""
         self.func = func
@@ -338,6 +361,17 @@ class Flow:
         self._stmt: ast.stmt = func.node
         self._shadow: list[set[str]] = []
         self.inline_exclude: frozenset[str] = frozenset()
+        # walk-time inlining of helper calls that stand as a statement of their own (`helper(...)`, `x = helper(...)`): the callee's
+        # body is walked in the caller's state, so that guards established by the caller dominate sites inside the helper and
+        # sites of the helper are sites of this flow (extract-function refactorings do not change what a rule sees)
+        self.inline_calls = inline_calls if repo is not None else 0
+        self._tail_stack: list[bool] = []
+        self.inline_known = False  # set by a rule that wants reference-tree helpers inlined as well
+        self._inline_stack: list[str] = []
+        self._ret_stack: list[list[tuple[State, ast.expr | None]]] = []
+        self._site_func: Func | None = None
+        self._inline_seq = 0
+        self.inlined: list[str] = []
         self._collect_alldefs()
         # heap paths (attribute-rooted) that this function stores to: reads of them are not propagated into
         # definitions, so that facts about a local copy survive a later store to the field
@@ -371,7 +405,8 @@ class Flow:
         return out
 
     def stmts(self, *types: type) -> list[Site]:
-        return [s for s in self.sites if isinstance(s.node, types) and s.node is s.stmt]
+        # a `return` of an inlined helper ends the helper, not the analysed function: it is not one of this function's returns
+        return [s for s in self.sites if isinstance(s.node, types) and s.node is s.stmt and not (isinstance(s.node, ast.Return) and s.func is not self.func)]
 
     def cone(self, e: ast.expr, site: Site | None = None, depth: int = 8, inline: int = 2) -> ast.expr:
         """`e` expanded through the site's environment and, for names without a unique reaching
@@ -431,7 +466,7 @@ class Flow:
         return ast.fix_missing_locations(Inl().visit(copy.deepcopy(e)))
 
     # ------------------------------------------------------------------ all definitions (flow-insensitive)
-    def _collect_alldefs(self) -> None:
+    def _collect_alldefs(self, body: list[ast.stmt] | None = None) -> None:
         ctl: list[ast.expr] = []  # conditions / iteration domains the current statement is control-dependent on
 
         def add(name: str, value: ast.expr) -> None:
@@ -518,7 +553,7 @@ class Flow:
             for c in ast.iter_child_nodes(n):
                 walk(c)
 
-        for st in self.func.node.body:
+        for st in (self.func.node.body if body is None else body):
             walk(st)
 
     # ------------------------------------------------------------------ state helpers
@@ -549,6 +584,17 @@ class Flow:
         if neg in alt.facts:
             return True
         if isinstance(atom, ast.Constant) and atom.value is False:
+            return True
+        # comparisons between constants decide themselves (`None is not None` after a helper returned None on this path)
+        if isinstance(atom, ast.Compare) and len(atom.ops) == 1 and isinstance(atom.left, ast.Constant) and isinstance(atom.comparators[0], ast.Constant):
+            l, r, op = atom.left.value, atom.comparators[0].value, atom.ops[0]
+            try:
+                val = {ast.Is: l is r, ast.IsNot: l is not r, ast.Eq: l == r, ast.NotEq: l != r}.get(type(op))
+            except Exception:  # noqa: BLE001
+                val = None
+            if val is False:
+                return True
+        if is_not_const_truthy(atom):
             return True
         m = norm.match(norm.T("$x is None"), atom)
         if m is not None:
@@ -612,12 +658,19 @@ class Flow:
             allowed |= set(encl.params)
             allowed |= {n.name for n in ast.walk(encl.node) if isinstance(n, ast.FunctionDef)}
             encl = encl.parent
+        sub["__ret__"] = call
         for f in facts:
             if f.kind != "atom":
                 continue
-            if not (norm.free_names(f.expr) - allowed) <= set(sub):
-                continue
-            out.append(Fact(norm.canon(expand(f.expr, sub)), line=line))
+            foreign = norm.free_names(f.expr) - allowed - set(sub)
+            sub2 = sub
+            if foreign:
+                # the fact mentions locals of the callee: it still holds for *some* values at the moment of the return; the locals are
+                # renamed to opaque names of their own so that they can never be confused with names of the caller
+                sub2 = dict(sub)
+                for nm in foreign:
+                    sub2[nm] = ast.Name(f"__loc_{callee.name}_{nm}__", ast.Load())
+            out.append(Fact(norm.canon(expand(f.expr, sub2)), line=line))
         return out
 
     def _resolve_callee(self, call: ast.Call) -> Func | None:
@@ -774,7 +827,7 @@ class Flow:
     # ------------------------------------------------------------------ expressions
     def _record(self, node: ast.AST, st: State, extra: tuple[Fact, ...]) -> None:
         shadow = frozenset(set().union(*self._shadow)) if self._shadow else frozenset()
-        self.sites.append(Site(node, self._stmt, st.copy(), extra, tuple(self._loops), self.func, shadow))
+        self.sites.append(Site(node, self._stmt, st.copy(), extra, tuple(self._loops), self._site_func or self.func, shadow))
 
     def _extra_facts(self, cond: ast.expr, polarity: bool, st: State, line: int) -> tuple[Fact, ...]:
         env = st.common_env()
@@ -899,11 +952,19 @@ class Flow:
             st = st.copy()
             self._expr(s.value, st)
             self._record(s, st, ())
+            if isinstance(s.value, ast.Call):
+                inl = self._inline_call(s.value, st, None)
+                if inl is not None:
+                    return Outcome(inl if not inl.dead else None)
             return Outcome(st)
         if isinstance(s, ast.Assign):
             st = st.copy()
             self._expr(s.value, st)
             self._record(s, st, ())
+            if isinstance(s.value, ast.Call) and len(s.targets) == 1:
+                inl = self._inline_call(s.value, st, s.targets[0])
+                if inl is not None:
+                    return Outcome(inl if not inl.dead else None)
             for t in s.targets:
                 for sub in ast.walk(t):
                     if isinstance(sub, ast.Subscript):
@@ -930,7 +991,27 @@ class Flow:
         if isinstance(s, ast.Return):
             st = st.copy()
             self._expr(s.value, st)
-            self._record(s, st, ())
+            tail = all(self._tail_stack)  # every enclosing inlined call is itself a tail call (or there is none)
+            if tail and isinstance(s.value, ast.Call):
+                # `return helper(..)`: the returns of an inlined helper are returns of the analysed function
+                self._tail_stack.append(True)
+                try:
+                    inl = self._inline_call(s.value, st, None)
+                finally:
+                    self._tail_stack.pop()
+                if inl is not None:
+                    if self._ret_stack:
+                        self._ret_stack[-1].append((st, s.value))
+                    return Outcome(None)
+            prev_sf = self._site_func
+            if tail:
+                self._site_func = self.func
+            try:
+                self._record(s, st, ())
+            finally:
+                self._site_func = prev_sf
+            if self._ret_stack:
+                self._ret_stack[-1].append((st, s.value))  # a return of an inlined helper ends the helper, not the caller
             return Outcome(None)
         if isinstance(s, ast.Raise):
             st = st.copy()
@@ -1018,6 +1099,135 @@ class Flow:
             return Outcome(st)
         raise AnalysisError(f"{self.func.where}: statement kind {type(s).__name__} at line {line} not supported")
 
+    def _inline_call(self, call: ast.Call, st: State, target: ast.expr | None) -> State | None:
+        """walk the body of a resolvable, small, non-recursive repo helper in the caller's state; None = not inlined"""
+        if self.inline_calls <= 0 or len(self._inline_stack) >= self.inline_calls or st.dead:
+            return None
+        callee = self._resolve_callee_wide(call)
+        if callee is None or callee.node is self.func.node or callee.key in self._inline_stack or callee.key in self.inline_exclude:
+            return None
+        if not self.inline_known and (callee.key in _KNOWN_FUNCS or f"{callee.module.relpath}:*.{callee.name}" in _KNOWN_FUNCS):
+            return None  # a function of the reference tree: the rules know it as it is
+        node = callee.node
+        a = node.args
+        if a.vararg or a.kwarg or any(isinstance(x, ast.Starred) for x in call.args) or any(k.arg is None for k in call.keywords):
+            return None
+        if any(isinstance(n, (ast.Yield, ast.YieldFrom, ast.Await, ast.Global, ast.Nonlocal)) for n in ast.walk(node)):
+            return None
+        n_stmts = sum(1 for n in ast.walk(node) if isinstance(n, ast.stmt))
+        if n_stmts > 60:
+            return None
+        if any(isinstance(n, ast.Call) and isinstance(n.func, ast.Name) and n.func.id == callee.name for n in ast.walk(node)):
+            return None  # directly recursive
+        params = [x.arg for x in (*a.posonlyargs, *a.args)]
+        decos = callee.decorators()
+        static = any("staticmethod" in d for d in decos)
+        args = list(call.args)
+        bound: dict[str, ast.expr] = {}
+        if callee.cls is not None and not static and params and params[0] in ("self", "cls"):
+            recv = call.func.value if isinstance(call.func, ast.Attribute) else ast.Name("self", ast.Load())
+            bound[params[0]] = recv
+            params = params[1:]
+        if len(args) > len(params):
+            return None
+        for p_, v in zip(params, args):
+            bound[p_] = v
+        for k in call.keywords:
+            if k.arg in params or k.arg in [x.arg for x in a.kwonlyargs]:
+                bound[k.arg] = k.value  # type: ignore[index]
+        defaults = dict(zip([x.arg for x in (*a.posonlyargs, *a.args)][-len(a.defaults):], a.defaults)) if a.defaults else {}
+        for x, d in zip(a.kwonlyargs, a.kw_defaults):
+            if d is not None:
+                defaults[x.arg] = d
+        for p_ in [*params, *[x.arg for x in a.kwonlyargs]]:
+            if p_ not in bound:
+                if p_ in defaults:
+                    bound[p_] = defaults[p_]
+                else:
+                    return None
+        # alpha-rename the callee's locals; parameters that are never re-bound and receive a simple argument are substituted directly
+        self._inline_seq += 1
+        tag = f"{callee.name}_{self._inline_seq}"
+        stored, _ = stored_names(node.body)
+        nested = {n.name for n in ast.walk(node) if isinstance(n, (ast.FunctionDef, ast.ClassDef)) and n is not node}
+        simple = lambda e: isinstance(e, (ast.Name, ast.Constant)) or (isinstance(e, ast.Attribute) and simple(e.value))  # noqa: E731
+        direct = {p_: v for p_, v in bound.items() if p_ not in stored and simple(v)}
+        ren = {n: f"__{tag}_{n}__" for n in (set(stored) | set(bound)) - set(direct) - nested}
+
+        class R(ast.NodeTransformer):
+            def visit_Name(self, n: ast.Name) -> ast.AST:
+                if n.id in direct and isinstance(n.ctx, ast.Load):
+                    return ast.copy_location(copy.deepcopy(direct[n.id]), n)
+                if n.id in ren:
+                    return ast.copy_location(ast.Name(ren[n.id], n.ctx), n)
+                return n
+
+            def visit_arg(self, n: ast.arg) -> ast.AST:
+                return n
+
+        body = [R().visit(copy.deepcopy(x)) for x in node.body]
+        for x in body:
+            ast.fix_missing_locations(x)
+        cur = st.copy()
+        for p_, v in bound.items():
+            if p_ in direct:
+                continue
+            self._assign_name(cur, ren[p_], v)
+            self.alldefs.setdefault(ren[p_], []).append(v)
+        self._collect_alldefs(body)  # the helper's (renamed) locals are locals of the analysed function now
+        self._inline_stack.append(callee.key)
+        self._ret_stack.append([])
+        if len(self._tail_stack) < len(self._ret_stack):
+            self._tail_stack.append(False)  # not entered from a `return helper(..)`
+            pushed_tail = True
+        else:
+            pushed_tail = False
+        prev_site_func = self._site_func
+        self._site_func = callee
+        saved_loops = self._loops
+        try:
+            out = self._block(body, cur)
+        finally:
+            self._site_func = prev_site_func
+            rets = self._ret_stack.pop()
+            if pushed_tail:
+                self._tail_stack.pop()
+            self._inline_stack.pop()
+            self._loops = saved_loops
+        self.inlined.append(callee.key)
+        # states that leave the helper: falling off its end (returns None) or an explicit return
+        leaving: list[State] = []
+        if out.fall is not None and not out.fall.dead:
+            f_ = out.fall.copy()
+            if target is not None:
+                self._bind(f_, target, ast.Constant(None))
+            leaving.append(f_)
+        for rst, rv in rets:
+            r_ = rst.copy()
+            if target is not None:
+                self._bind(r_, target, rv if rv is not None else ast.Constant(None))
+            leaving.append(r_)
+        if not leaving:
+            return State([])
+        return join(leaving)
+
+    def _resolve_callee_wide(self, call: ast.Call) -> Func | None:
+        """_resolve_callee plus `Class.method(...)` / `self.method` static methods and functions imported from other repo modules"""
+        c = self._resolve_callee(call)
+        if c is not None:
+            return c
+        f = call.func
+        if self.repo is not None and isinstance(f, ast.Attribute) and isinstance(f.value, ast.Name):
+            m = self.func.module
+            owner = m.classes.get(f.value.id)
+            if owner is None and f.value.id in m.imports:
+                obj = self.repo.lookup_dotted(m.imports[f.value.id])
+                if isinstance(obj, Cls):
+                    owner = obj
+            if owner is not None:
+                return self.repo.find_method(owner, f.attr)
+        return None
+
     def _loop_entry(self, s: ast.For | ast.While, st: State) -> State:
         body_nodes: list[ast.AST] = list(s.body)
         if isinstance(s, ast.For):
@@ -1032,11 +1242,43 @@ class Flow:
             self._kill_path(st, p)
         return st
 
+    def _literal_rounds(self, s: ast.For, st: State) -> list[ast.expr] | None:
+        """the elements of `for x in (f, g)`: a short literal tuple of names (functions, classes), directly or through a local that
+        every path binds to the same literal; None when the loop is an ordinary one"""
+        if not isinstance(s.target, ast.Name) or s.orelse or not st.alts:
+            return None
+        its = {ast.dump(self._expand(s.iter, a)) for a in st.alts}
+        if len(its) != 1:
+            return None
+        it = self._expand(s.iter, st.alts[0])
+        if not isinstance(it, (ast.Tuple, ast.List)) or not (2 <= len(it.elts) <= 4):
+            return None
+        if not all(isinstance(e, (ast.Name, ast.Attribute)) for e in it.elts):
+            return None
+        stored, _ = stored_names(s.body)
+        if s.target.id in stored or any(isinstance(n, (ast.Lambda, ast.FunctionDef)) for b in s.body for n in ast.walk(b)):
+            return None
+        return list(it.elts)
+
     def _for(self, s: ast.For, st: State) -> Outcome:
         line = s.lineno
         st = st.copy()
         self._expr(s.iter, st)
         self._record(s, st, ())
+        rounds = self._literal_rounds(s, st)
+        if rounds is not None:
+            # unrolled: each round is the body with that name in place of the variable; `continue` ends a round, `break` the loop
+            cur: State = st
+            breaks: list[State] = []
+            for e in rounds:
+                body_ = [ast.fix_missing_locations(norm._Subst(s.target.id, e).visit(copy.deepcopy(x))) for x in s.body]
+                out_ = self._block(body_, cur.copy())
+                breaks += out_.breaks
+                cur = join([out_.fall, *out_.continues])
+                if cur.dead:
+                    break
+            fall_ = join([cur, *breaks])
+            return Outcome(None if fall_.dead else fall_)
         entry = self._loop_entry(s, st)
         dom = [self._expand(s.iter, a) for a in entry.alts]
         self._loops.append(s)
@@ -1063,6 +1305,41 @@ class Flow:
                     for a, d in zip(normal.alts, dom):
                         q = Fact(ast.Constant(True), "forall", tvars, d, tuple(per_iter), line)
                         a.facts[q.text] = q
+                elif len(ends) > 1:
+                    # `if not c: continue` in front of the body: what the other iterations establish holds for the elements with c
+                    # (the loop then reads `for v in [v for v in D if c]`)
+                    keep = lambda f: f.kind == "atom" and bool(f.names() & set(tvars)) and not (f.names() & (body_names - set(tvars)))  # noqa: E731
+                    done = False
+                    for e0 in ends:
+                        if done:
+                            break
+                        for k0, n0 in e0.common_facts().items():
+                            if k0 in entry_common or not keep(n0):
+                                continue
+                            c = norm.canon(norm.negate(n0.expr))
+                            ctext = ast.unparse(c)
+                            P = [e for e in ends if ctext in e.common_facts()]
+                            N = [e for e in ends if k0 in e.common_facts()]
+                            if not P or len(P) + len(N) != len(ends):
+                                continue
+                            commonP: dict[str, Fact] | None = None
+                            for e in P:
+                                cf = e.common_facts()
+                                commonP = cf if commonP is None else {k: v for k, v in commonP.items() if k in cf}
+                            assert commonP is not None
+                            per_iter = [f for k, f in commonP.items() if k not in entry_common and k != ctext and keep(f)]
+                            if not per_iter:
+                                continue
+                            for a, d in zip(normal.alts, dom):
+                                fd = ast.ListComp(copy.deepcopy(s.target), [ast.comprehension(copy.deepcopy(s.target), d, [c], 0)])
+                                for nn in ast.walk(fd.elt):
+                                    if isinstance(nn, ast.Name):
+                                        nn.ctx = ast.Load()
+                                ast.fix_missing_locations(fd)
+                                q = Fact(ast.Constant(True), "forall", tvars, fd, tuple(per_iter), line)
+                                a.facts[q.text] = q
+                            done = True
+                            break
             else:
                 # no iteration can complete: the loop either does not iterate or leaves the function
                 for a, d in zip(normal.alts, dom):
@@ -1285,13 +1562,37 @@ def outcome_summary(f: Func, repo: Repo | None, depth: int = 0) -> dict[str, lis
             sets["true" if v.value else "false"].append(base)
             sets["notnone"].append(base)
         else:
+            # facts that mention the returned value are re-expressed over `__ret__` (the caller substitutes its call expression)
+            vtxt = ast.unparse(norm.canon(site.expand(v)))
+            vraw = ast.unparse(v)
+
+            def over_ret(d: dict[str, Fact] | None) -> dict[str, Fact] | None:
+                if d is None:
+                    return None
+                out: dict[str, Fact] = {}
+                for k, fct in d.items():
+                    if fct.kind == "atom" and (vtxt in k or vraw in k):
+                        class R(ast.NodeTransformer):
+                            def generic_visit(self, node: ast.AST) -> ast.AST:
+                                if isinstance(node, ast.expr) and ast.unparse(node) in (vtxt, vraw):
+                                    return ast.copy_location(ast.Name("__ret__", ast.Load()), node)
+                                return super().generic_visit(node)
+
+                        e2 = R().visit(copy.deepcopy(fct.expr))
+                        nf = Fact(ast.fix_missing_locations(e2))
+                        out[nf.text] = nf
+                        out[k] = fct  # and the fact itself, over the parameters
+                    else:
+                        out[k] = fct
+                return out
+
             for pol, name in ((True, "true"), (False, "false")):
-                d = refine(site, base, v, pol)
+                d = over_ret(refine(site, base, v, pol))
                 if d is not None:
                     sets[name].append(d)
             isnone = ast.Compare(v, [ast.Is()], [ast.Constant(None)])
             for pol, name in ((True, "none"), (False, "notnone")):
-                d = refine(site, base, isnone, pol)
+                d = over_ret(refine(site, base, isnone, pol))
                 if d is not None:
                     sets[name].append(d)
     if fl.end_state is not None:
